@@ -344,6 +344,45 @@ pub fn run(ctx: &mut Ctx) {
 		);
 		ctx.add(fam);
 	}
+	if ctx.wants("M_mixed_size_triples") {
+		let n = ctx.pick(60_000, 800_000);
+		let fam = Fam::new("M_mixed_size_triples", "proptest: three objects (or arrays) that agree on a common prefix of 0..3 members, then differ in one member drawn from a 4-value pool, followed by fillers whose lengths come from very different size classes (0..4, 28..36, 60..70, 100..140): the same laws (in particular transitivity and cmp == Equal <=> ==) must hold across size classes; non-trivial = the three lengths fall in at least two different classes and at least one is >= 60", false);
+		let fam = run_proptest(
+			ctx,
+			fam,
+			n,
+			|| {
+				let size = prop_oneof![2 => 0usize..4, 1 => 28usize..36, 2 => 60usize..70, 1 => 100usize..140];
+				(0usize..3, any::<bool>(), proptest::collection::vec((0u8..4, size, 0u8..3), 3))
+			},
+			|(prefix, as_array, specs)| {
+				let pool = [RefValue::num("0"), RefValue::num("1"), RefValue::num("2"), RefValue::str("x")];
+				let mk = |(pick, size, fill): &(u8, usize, u8)| -> RefValue {
+					let mut es: Vec<(String, RefValue)> = (0..*prefix).map(|i| (format!("p{i}"), RefValue::Null)).collect();
+					es.push(("d".to_string(), pool[*pick as usize].clone()));
+					for i in 0..*size {
+						es.push((format!("f{}", if *fill == 0 { i } else { i % (*fill as usize + 1) }), RefValue::Num((i % 3).to_string())));
+					}
+					if *as_array {
+						RefValue::Arr(es.into_iter().map(|(_, v)| v).collect())
+					} else {
+						RefValue::Obj(es)
+					}
+				};
+				let t = [mk(&specs[0]), mk(&specs[1]), mk(&specs[2])];
+				match laws_property(&t) {
+					Ok(_) => {
+						let class = |s: usize| if s < 4 { 0 } else if s < 40 { 1 } else if s < 80 { 2 } else { 3 };
+						let cs: std::collections::BTreeSet<usize> = specs.iter().map(|s| class(s.1)).collect();
+						Outcome::ok(cs.len() >= 2 && specs.iter().any(|s| s.1 >= 60), vec![])
+					}
+					Err(m) => Outcome::fail(m),
+				}
+			},
+			|(prefix, as_array, specs)| json!({"prefix": prefix, "as_array": as_array, "specs": specs.iter().map(|s| json!([s.0, s.1, s.2])).collect::<Vec<_>>()}),
+		);
+		ctx.add(fam);
+	}
 	if ctx.wants("S_small_exhaustive") {
 		ctx.begin_family("S_small_exhaustive");
 		// all ordered pairs and triples over a small set of values
@@ -393,6 +432,9 @@ pub fn run(ctx: &mut Ctx) {
 }
 
 pub fn replay(family: &str, case: &J) -> Result<(), String> {
+	if family == "M_mixed_size_triples" {
+		return Err("recorded for reading; re-run the family with the same VERIF_SEED to reproduce".into());
+	}
 	if family == "R_construction_routes" {
 		let entries = match RefValue::decode(&case["entries"]) {
 			RefValue::Obj(e) => e,
